@@ -100,6 +100,10 @@ def check_one(case, ctx, deep, small_subsets=8):
                     seq = list(subset) + [rnd.choice(subset) for _ in range(rnd.randint(0, 2))] if subset else []
                     rnd.shuffle(seq)
                     query(ctx, context, case, plain, side, subset, rnd.choice(['list', 'iter', 'iter', 'set', 'frozenset', 'dict', 'keys']), seq)
+                    names_ = [(o if side == 'o' else p)[i] for i in subset]
+                    if len(subset) >= 2 and all(len(x) == 1 for x in names_):
+                        # a str is an iterable of one-character labels - also when their concatenation is a label itself
+                        query(ctx, context, case, plain, side, subset, 'str', subset)
 
 
 def check_chars(case, ctx):
@@ -118,7 +122,7 @@ def check_chars(case, ctx):
 
 
 def plan(tier, seed):
-    return tablecheck.plan(tier, seed, quick_cells=12, thorough_cells=16, thorough_shapes=(),
+    return tablecheck.plan(tier, seed, odd=True, quick_cells=12, thorough_cells=16, thorough_shapes=(),
                            thorough_multisets=(), hyp_quick=(10, 60), hyp_thorough=(16, 600), wide=True,
                            profiles=('small', 'medium'))
 
